@@ -144,6 +144,18 @@ double now_ms() { struct timespec ts; clock_gettime(CLOCK_MONOTONIC, &ts); retur
 // an internal retry condition reported to the caller: the would-block code, or a native EINTR/EAGAIN behind any code other than timed-out
 // (a genuine time-out legitimately carries the EAGAIN of the attempt that made the call wait)
 bool would_block_code(PError *e) { return e && (p_error_get_code(e) == P_ERROR_IO_WOULD_BLOCK || (p_error_get_code(e) != P_ERROR_IO_TIMED_OUT && (p_error_get_native_code(e) == EINTR || p_error_get_native_code(e) == EAGAIN))); }
+// The harness's own TCP endpoints close with a reset (SO_LINGER 0): a reset leaves no TIME_WAIT entry behind on either side, so that
+// hundreds of thousands of short connections do not exhaust the ephemeral port range (which once made bind(0) fail and connects be
+// refused on the unchanged tree: an environment failure reported as a violation).
+void no_time_wait(int fd) { if (fd < 0) return; struct linger lg = {1, 0}; setsockopt(fd, SOL_SOCKET, SO_LINGER, &lg, sizeof lg); }
+// the environment cannot currently give out a local port: nothing about the library can be decided from a failing bind / connect then
+bool env_ports_exhausted() {
+  int s = socket(AF_INET, SOCK_STREAM, 0); if (s < 0) return true;
+  sockaddr_in a; memset(&a, 0, sizeof a); a.sin_family = AF_INET; a.sin_addr.s_addr = htonl(INADDR_LOOPBACK);
+  bool bad = bind(s, (sockaddr *)&a, sizeof a) != 0; close(s);
+  if (bad) vl::stats().count("environment_out_of_local_ports");
+  return bad;
+}
 string errstr(PError *e) { if (!e) return "(no error object)"; return "code " + std::to_string(p_error_get_code(e)) + " native " + std::to_string(p_error_get_native_code(e)) + " '" + (p_error_get_message(e) ? p_error_get_message(e) : "") + "'"; }
 
 struct Step { char kind; long a = 0, b = 0; string s; };
@@ -327,7 +339,9 @@ Outcome run_c09(const Case &c) {
   bool server = c.kind == "tcp_server";
   PSocket *ls = NULL; int rawfd = -1;
   if (!server) {
-    int lst = socket(fam == 6 ? AF_INET6 : AF_INET, SOCK_STREAM, 0); sockaddr_storage a; socklen_t al = loop_addr(fam, 0, a); bind(lst, (sockaddr *)&a, al); listen(lst, 4); int port = port_of(lst);
+    int lst = socket(fam == 6 ? AF_INET6 : AF_INET, SOCK_STREAM, 0); sockaddr_storage a; socklen_t al = loop_addr(fam, 0, a);
+    if (lst < 0 || bind(lst, (sockaddr *)&a, al) != 0 || listen(lst, 4) != 0 || port_of(lst) == 0) { if (lst >= 0) close(lst); out.inconclusive = true; return out; }   // harness set-up failed: decides nothing
+    int port = port_of(lst);
     ls = p_socket_new(pf, P_SOCKET_TYPE_STREAM, P_SOCKET_PROTOCOL_TCP, NULL);
     PSocketAddress *to = p_socket_address_new(fam == 6 ? "::1" : "127.0.0.1", (puint16)port);
     if (c.sndbuf) p_socket_set_buffer_size(ls, P_SOCKET_DIRECTION_SND, (psize)c.sndbuf, NULL);
@@ -335,16 +349,17 @@ Outcome run_c09(const Case &c) {
     PError *err = NULL;
     pboolean ok = p_socket_connect(ls, to, &err);
     disarm();
+    if (!ok && env_ports_exhausted()) { out.inconclusive = true; if (err) p_error_free(err); p_socket_address_free(to); p_socket_free(ls); close(lst); return out; }
     if (!ok) { fail(would_block_code(err) ? "blocking-reports-retry" : "connect", "blocking connect to a listening loopback port failed: " + errstr(err)); if (err) p_error_free(err); p_socket_address_free(to); p_socket_free(ls); close(lst); return out; }
     if (!p_socket_is_connected(ls)) fail("connect", "is_connected FALSE after successful connect");
     p_socket_address_free(to);
-    rawfd = accept(lst, NULL, NULL); close(lst);
+    rawfd = accept(lst, NULL, NULL); close(lst); no_time_wait(rawfd);
   } else {
     PSocket *srv = p_socket_new(pf, P_SOCKET_TYPE_STREAM, P_SOCKET_PROTOCOL_TCP, NULL);
     PSocketAddress *la = p_socket_address_new(fam == 6 ? "::1" : "127.0.0.1", 0);
     p_socket_bind(srv, la, TRUE, NULL); p_socket_listen(srv, NULL); p_socket_address_free(la);
     PSocketAddress *loc = p_socket_get_local_address(srv, NULL); int port = p_socket_address_get_port(loc); p_socket_address_free(loc);
-    rawfd = socket(fam == 6 ? AF_INET6 : AF_INET, SOCK_STREAM, 0); sockaddr_storage a; socklen_t al = loop_addr(fam, port, a);
+    rawfd = socket(fam == 6 ? AF_INET6 : AF_INET, SOCK_STREAM, 0); no_time_wait(rawfd); sockaddr_storage a; socklen_t al = loop_addr(fam, port, a);
     // the harness's own connect may be hit by the signal storm of a C19 scenario: retry; a set-up that still fails decides nothing
     { int cr; do cr = connect(rawfd, (sockaddr *)&a, al); while (cr != 0 && errno == EINTR); if (cr != 0 && errno != EISCONN && errno != EALREADY && errno != EINPROGRESS) { out.inconclusive = true; p_socket_free(srv); close(rawfd); return out; } }
     arm(c.plan);
@@ -501,7 +516,7 @@ Outcome run_c10(const Case &c) {
       else if (m.listening) {
         bool with_peer = arg % 2 == 1;
         if (!with_peer && m.blocking && m.timeout == 0) with_peer = true; // a blocking accept without timeout is only issued when progress is guaranteed
-        if (with_peer) { int rf = socket(m.fam == 6 ? AF_INET6 : AF_INET, SOCK_STREAM, 0); sockaddr_storage sa; socklen_t sl = loop_addr(m.fam, m.port, sa); if (connect(rf, (sockaddr *)&sa, sl) == 0) raws.push_back(rf); else { close(rf); with_peer = false; } struct pollfd pp = {p_socket_get_fd(m.s), POLLIN, 0}; poll(&pp, 1, 3000); }
+        if (with_peer) { int rf = socket(m.fam == 6 ? AF_INET6 : AF_INET, SOCK_STREAM, 0); no_time_wait(rf); sockaddr_storage sa; socklen_t sl = loop_addr(m.fam, m.port, sa); if (connect(rf, (sockaddr *)&sa, sl) == 0) raws.push_back(rf); else { close(rf); with_peer = false; } struct pollfd pp = {p_socket_get_fd(m.s), POLLIN, 0}; poll(&pp, 1, 3000); }
         double t0 = now_ms();
         PSocket *r;
         { std::unique_ptr<MustNotBlock> g(m.blocking ? nullptr : new MustNotBlock("non-blocking p_socket_accept")); W.eagain_ok = m.blocking; r = p_socket_accept(m.s, &err); W.eagain_ok = false; }
@@ -518,16 +533,18 @@ Outcome run_c10(const Case &c) {
       if (m.closed) { PSocketAddress *ad = p_socket_address_new("127.0.0.1", 9); pboolean r = p_socket_connect(m.s, ad, &err); p_socket_address_free(ad); expect_not_available(i, "connect", !r, err, cb); }
       else if (m.tcp && !m.connected && !m.listening && !m.connect_tried) {
         m.connect_tried = true;
-        int lst = socket(m.fam == 6 ? AF_INET6 : AF_INET, SOCK_STREAM, 0); sockaddr_storage sa; socklen_t sl = loop_addr(m.fam, 0, sa); bind(lst, (sockaddr *)&sa, sl); int port = port_of(lst);
+        int lst = socket(m.fam == 6 ? AF_INET6 : AF_INET, SOCK_STREAM, 0); sockaddr_storage sa; socklen_t sl = loop_addr(m.fam, 0, sa);
+        if (lst < 0 || bind(lst, (sockaddr *)&sa, sl) != 0 || port_of(lst) == 0) { if (lst >= 0) close(lst); out.inconclusive = true; break; }   // harness set-up failed (no local port to be had)
+        int port = port_of(lst);
         bool refused = arg % 3 == 2;
-        if (!refused) listen(lst, 4); else { close(lst); lst = -1; }
+        if (!refused) { if (listen(lst, 4) != 0) { close(lst); out.inconclusive = true; break; } } else { close(lst); lst = -1; }
         PSocketAddress *ad = p_socket_address_new(m.fam == 6 ? "::1" : "127.0.0.1", (puint16)port);
         pboolean r = p_socket_connect(m.s, ad, &err);
         p_socket_address_free(ad);
         if (refused) { if (r) fail("connect", "connect to a closed port succeeded"); else if (m.blocking && would_block_code(err) && p_error_get_code(err) != P_ERROR_IO_TIMED_OUT) {} }
-        else if (m.blocking) { if (!r) fail("connect", "blocking connect to a listening loopback port failed: " + errstr(err)); else m.connected = true; }
+        else if (m.blocking) { if (!r) { if (env_ports_exhausted()) { out.inconclusive = true; break; } fail("connect", "blocking connect to a listening loopback port failed: " + errstr(err)); } else m.connected = true; }
         else { if (r) m.connected = true; else if (!err || (p_error_get_code(err) != P_ERROR_IO_IN_PROGRESS && p_error_get_code(err) != P_ERROR_IO_WOULD_BLOCK)) fail("nonblocking-code", "non-blocking connect failed with " + errstr(err) + " instead of in-progress / would-block"); else { usleep(3000); if (err) { p_error_free(err); err = NULL; } if (p_socket_check_connect_result(m.s, &err)) m.connected = p_socket_is_connected(m.s); } }
-        if (lst >= 0) { struct pollfd lp = {lst, POLLIN, 0}; poll(&lp, 1, m.connected ? 2000 : 50); fcntl(lst, F_SETFL, fcntl(lst, F_GETFL, 0) | O_NONBLOCK); int pf = accept4(lst, NULL, NULL, SOCK_NONBLOCK); if (pf >= 0) m.raw_peers.push_back(pf); close(lst); }
+        if (lst >= 0) { struct pollfd lp = {lst, POLLIN, 0}; poll(&lp, 1, m.connected ? 2000 : 50); fcntl(lst, F_SETFL, fcntl(lst, F_GETFL, 0) | O_NONBLOCK); int pf = accept4(lst, NULL, NULL, SOCK_NONBLOCK); if (pf >= 0) { no_time_wait(pf); m.raw_peers.push_back(pf); } close(lst); }
         // a failed connect leaves the connected flag as the library reports it; resynchronise from the API (is_connected is asserted in getters only for states the model knows)
         if (!refused && !m.blocking) m.connected = p_socket_is_connected(m.s);
         if (refused) m.connected = p_socket_is_connected(m.s) && false;
@@ -701,7 +718,7 @@ Outcome run_c19(const Case &c) {
     PSocketAddress *la = p_socket_address_new("127.0.0.1", 0); p_socket_bind(srv, la, TRUE, NULL); p_socket_listen(srv, NULL); p_socket_address_free(la);
     PSocketAddress *loc = p_socket_get_local_address(srv, NULL); int port = p_socket_address_get_port(loc); p_socket_address_free(loc);
     int rf = -1;
-    std::thread helper([&] { sigset_t ss; sigemptyset(&ss); sigaddset(&ss, SIGUSR1); pthread_sigmask(SIG_BLOCK, &ss, NULL); usleep((useconds_t)(c.p1 * 1000)); rf = socket(AF_INET, SOCK_STREAM, 0); sockaddr_storage sa; socklen_t sl = loop_addr(4, port, sa); connect(rf, (sockaddr *)&sa, sl); });
+    std::thread helper([&] { sigset_t ss; sigemptyset(&ss); sigaddset(&ss, SIGUSR1); pthread_sigmask(SIG_BLOCK, &ss, NULL); usleep((useconds_t)(c.p1 * 1000)); rf = socket(AF_INET, SOCK_STREAM, 0); no_time_wait(rf); sockaddr_storage sa; socklen_t sl = loop_addr(4, port, sa); connect(rf, (sockaddr *)&sa, sl); });
     arm(c.plan); if (storm_period) storm.start(storm_period);
     PError *err = NULL; PSocket *acc = p_socket_accept(srv, &err);
     storm.stop(); disarm(); helper.join();
